@@ -47,6 +47,11 @@ def special_cases():
                 "services": {"a": {"constructor": "fx.NewA"}, "b": {"constructor": "x.NewA", "arguments": ["@a"]},
                              "c": {"constructor": '"%s".NewA' % gen.FX2, "type": '*"%s".Obj' % gen.FX2, "getter": "C"}}})
     out.append({"meta": {"imports": {"fx": gen.FX}, "pkg": "fx"}, "services": {"a": {"constructor": "fx.NewA"}}})
+    # a package the configuration references but the generated code never uses: a type without a getter (emitted nowhere),
+    # in both modes; and must-getters by default (the stub's init() asserts the same interface)
+    out.append({"meta": {"imports": {"fx": gen.FX, "x": gen.FX2}, "pkg": "gen"}, "services": {"a": {"constructor": "fx.NewA", "type": "*x.Obj"}}})
+    out.append({"meta": {"imports": {"fx": gen.FX, "x": gen.FX2}, "pkg": "gen", "default_must_getter": True},
+                "services": {"a": {"constructor": "fx.NewA", "type": "*fx.Obj", "getter": "GetA"}, "b": {"value": "x.GlobalVal", "getter": "GetB", "must_getter": True}}})
     # equal getters on two services; getter named like the embedded field / a runtime method
     out.append({"meta": dict(fx), "services": {"a": {"constructor": "fx.NewA", "getter": "GetX"}, "b": {"constructor": "fx.NewA", "getter": "GetX"}}})
     out.append({"meta": dict(fx), "services": {"a": {"constructor": "fx.NewA", "getter": "Container"}}})
@@ -170,13 +175,25 @@ def run(ctx, n=None):
         sig = classify(msgs, acc[3] if acc else [])
         violations.append({"sig": sig, "what": "build exits 0 but the generated file does not type-check: " + "; ".join(msgs[:3]),
                            "files": acc[3] if acc else [], "flags": ["--stub"] if acc and acc[1] == "stub" else [], "observed": msgs[:5]})
-    # init() of every importable normal package
-    imp = [a for a in accepted if a[1] == "normal" and a[2] != "main" and a[0] not in bad]
-    if imp:
-        mod.write("probemain/main.go", PROBE % ("\n".join('\t_ "probe/%s"' % a[0] for a in imp), ""))
-        rc, out = mod.go(["run", "./probemain"])
+    # init() of every importable package: the normal ones, then the stubs (built with the stub tag)
+    for mode, tags in (("normal", []), ("stub", ["-tags", "gontainerstub"])):
+        imp = [a for a in accepted if a[1] == mode and a[2] != "main" and a[0] not in bad]
+        if not imp:
+            continue
+        hdr = "//go:build gontainerstub\n\n" if mode == "stub" else "//go:build !gontainerstub\n\n"
+        mod.write("probemain_%s/main.go" % mode, hdr + PROBE % ("\n".join('\t_ "probe/%s"' % a[0] for a in imp), ""))
+        rc, out = mod.go(["run"] + tags + ["./probemain_%s" % mode])
         if rc != 0 or "probe-ok" not in out:
-            violations.append({"sig": "init-panic", "what": "package initialisation of generated code fails: " + out[-600:], "files": [a[3] for a in imp][:3]})
+            # attribute to one package
+            culprit = None
+            for a in imp:
+                mod.write("probemain_one/main.go", hdr + PROBE % ('\t_ "probe/%s"' % a[0], ""))
+                rc1, o1 = mod.go(["run"] + tags + ["./probemain_one"])
+                if rc1 != 0 or "probe-ok" not in o1:
+                    culprit = (a, o1)
+                    break
+            a, o1 = culprit if culprit else (imp[0], out)
+            violations.append({"sig": "init-panic", "what": "package initialisation of the generated %s code fails: %s" % (mode, o1[-500:]), "files": a[3], "flags": ["--stub"] if mode == "stub" else []})
     return {
         "evaluations": len(cases) * 2, "distinct_nontrivial": len(seen), "programs": len(accepted),
         "disagreements_checked": len(accepted),
